@@ -253,7 +253,7 @@ func init() {
 	register(&PropSpec{ID: "C10", Jobs: c10jobs,
 		Covers: []string{"C10.rendered", "C10.undefined", "C10.two-levels", "C10.args-checked", "C10.two-args", "C10.configuration-level-checked"},
 		Bounds: map[string]interface{}{
-			"quick":    "one template variable defined at every subset of {configuration (as present in cfg.Variables after loading), --set, task, stage}, values independent symbolic members of {a, m, z}, target run directly and as a pipeline stage; argument vectors `t1` + 0..4 symbolic words over {--, t1, -x, a=b, w}",
+			"quick":    "one template variable defined at every subset of {configuration (as present in cfg.Variables after loading), --set, task, stage}, values independent symbolic members of {a, m, z, the empty string}, target run directly and as a pipeline stage; argument vectors `t1` + 0..4 symbolic words over {--, t1, -x, a=b, w}",
 			"thorough": "same bounds, assertion queries re-checked with a second solver",
 		},
 		Outside:     []string{"mergo itself (reflection, not encodable): Config.merge's call to mergo.Merge is replaced by a model of mergo's documented default behaviour on *Config (destination fields are filled only when empty, maps receive missing keys); the native replay runs the real mergo", "real text/template semantics (stub: single-reference template resolves to the value if the key is present, error otherwise - the missingkey=error contract)", "Root (set inside Loader.Load, stubbed)", "urfave/cli flag parsing"},
